@@ -145,6 +145,53 @@ class _BetaReduce(ast.NodeTransformer):
         return n
 
 
+def _const_truth(t):
+    """True/False when the test is decided by literals, else None."""
+    if isinstance(t, ast.Constant):
+        return bool(t.value)
+    if isinstance(t, ast.UnaryOp) and isinstance(t.op, ast.Not):
+        v = _const_truth(t.operand)
+        return None if v is None else not v
+    if isinstance(t, ast.BoolOp):
+        vs = [_const_truth(v) for v in t.values]
+        if isinstance(t.op, ast.And):
+            if any(v is False for v in vs):
+                return False
+            return True if all(v is True for v in vs) else None
+        if any(v is True for v in vs):
+            return True
+        return False if all(v is False for v in vs) else None
+    if isinstance(t, ast.Compare) and len(t.ops) == 1 and isinstance(t.left, ast.Constant) and isinstance(t.comparators[0], ast.Constant):
+        a, b, op = t.left.value, t.comparators[0].value, t.ops[0]
+        if isinstance(op, (ast.Is, ast.Eq)) and (a is None or b is None or type(a) is type(b)):
+            return a == b if isinstance(op, ast.Eq) else (a is b)
+        if isinstance(op, (ast.IsNot, ast.NotEq)) and (a is None or b is None or type(a) is type(b)):
+            return a != b if isinstance(op, ast.NotEq) else (a is not b)
+    return None
+
+
+def _prune_constant_ifs(stmts):
+    out = []
+    for x in stmts:
+        if isinstance(x, ast.If):
+            v = _const_truth(x.test)
+            if v is True:
+                out += _prune_constant_ifs(x.body)
+                continue
+            if v is False:
+                out += _prune_constant_ifs(x.orelse)
+                continue
+        for fld in ("body", "orelse", "finalbody"):
+            sub = getattr(x, fld, None)
+            if isinstance(sub, list) and sub and isinstance(sub[0], ast.stmt) and not isinstance(x, (ast.FunctionDef, ast.ClassDef)):
+                new = _prune_constant_ifs(sub)
+                setattr(x, fld, new if (new or fld != "body") else [ast.copy_location(ast.Pass(), x)])
+        for h in getattr(x, "handlers", []) or []:
+            h.body = _prune_constant_ifs(h.body) or [ast.copy_location(ast.Pass(), h)]
+        out.append(x)
+    return out
+
+
 def _kwarg_only_forwarded(fnode, name: str) -> bool:
     """The ``**name`` parameter is used only as ``g(..., **name)``."""
     fwd = set()
@@ -233,6 +280,80 @@ def _tailify(stmts, make_result):
                 out.append(new)
                 return out
             return None
+        if (
+            isinstance(st, (ast.For, ast.While)) and not st.orelse and i == len(stmts) - 1 and _has_return([st])
+            and not make_result(None, st)
+        ):
+            # the loop is the last thing the (result-less) helper does: leaving
+            # the helper from inside it is leaving the loop
+            new = copy.deepcopy(st)
+            ok = [True]
+
+            def to_break(block, depth):
+                out_b = []
+                for x in block:
+                    if isinstance(x, ast.Return):
+                        if x.value is not None and not (isinstance(x.value, ast.Constant) and x.value.value is None):
+                            ok[0] = False
+                        if depth > 0:
+                            ok[0] = False  # would have to leave several loops
+                        out_b.append(ast.copy_location(ast.Break(), x))
+                        continue
+                    if isinstance(x, (ast.FunctionDef, ast.AsyncFunctionDef, ast.ClassDef)):
+                        out_b.append(x)
+                        continue
+                    inner = depth + (1 if isinstance(x, (ast.For, ast.While)) else 0)
+                    for fld in ("body", "orelse", "finalbody"):
+                        sub = getattr(x, fld, None)
+                        if isinstance(sub, list) and sub and isinstance(sub[0], ast.stmt):
+                            setattr(x, fld, to_break(sub, inner))
+                    for h in getattr(x, "handlers", []) or []:
+                        h.body = to_break(h.body, inner)
+                    out_b.append(x)
+                return out_b
+
+            new.body = to_break(new.body, 0)
+            if not ok[0]:
+                return None
+            out.append(new)
+            return out
+        if isinstance(st, (ast.For, ast.While)) and not st.orelse and i < len(stmts) - 1 and _has_return([st]):
+            # a search loop:  for x in xs: (if c: return v) ; REST
+            # is  for x in xs: (if c: RESULT(v); break)  else: REST   - provided
+            # the loop has no break of its own (REST must also run after one)
+            new = copy.deepcopy(st)
+            ok = [True]
+
+            def conv(block, depth):
+                out_b = []
+                for x in block:
+                    if isinstance(x, ast.Return):
+                        if depth > 0:
+                            ok[0] = False
+                        out_b += make_result(x.value, x) + [ast.copy_location(ast.Break(), x)]
+                        continue
+                    if isinstance(x, ast.Break) and depth == 0:
+                        ok[0] = False
+                    if isinstance(x, (ast.FunctionDef, ast.AsyncFunctionDef, ast.ClassDef)):
+                        out_b.append(x)
+                        continue
+                    inner = depth + (1 if isinstance(x, (ast.For, ast.While)) else 0)
+                    for fld in ("body", "orelse", "finalbody"):
+                        sub = getattr(x, fld, None)
+                        if isinstance(sub, list) and sub and isinstance(sub[0], ast.stmt):
+                            setattr(x, fld, conv(sub, inner))
+                    for h in getattr(x, "handlers", []) or []:
+                        h.body = conv(h.body, inner)
+                    out_b.append(x)
+                return out_b
+
+            new.body = conv(new.body, 0)
+            rest = _tailify(list(stmts[i + 1:]), make_result)
+            if not ok[0] or rest is None:
+                return None
+            new.orelse = rest
+            out.append(new)
+            return out
         if isinstance(st, ast.Try) and not st.finalbody and not _has_return(st.body) and st.handlers:
             # try: A / except E: ...; return   followed by REST   is the same as
             # try: A / except E: ... / else: REST   (the else clause, like REST,
@@ -321,6 +442,22 @@ class Normalizer:
             and not t.name.startswith("__") and not t.cls.bases
         ):
             return t
+        # public API that the pinned tree does not have (a later change added
+        # it): no rule knows the name, so it is as transparent as a private
+        # helper - existing code is often re-expressed through such additions
+        from .baseline_api import PUBLIC_CALLABLES
+
+        key = (t.cls.name + "." if t.cls is not None else "") + t.name
+        if (
+            not private and not t.name.startswith("__") and t.parent is None and key not in PUBLIC_CALLABLES
+            and not (t.decorators and not (t.is_static or t.is_classmethod))
+        ):
+            # a new method of a baseline class must not shadow an inherited baseline name
+            inherited = t.cls is not None and any(
+                (b.rsplit(".", 1)[-1] + "." + t.name) in PUBLIC_CALLABLES for b in t.cls.mro[1:]
+            )
+            if not inherited:
+                return t
         # a module-level function of the package that no __init__ re-exports
         # is an internal helper wherever it lives (helpers moved to a new
         # private module)
@@ -463,8 +600,20 @@ class Normalizer:
             known = {p.arg for p in t.node.args.posonlyargs + t.node.args.args + t.node.args.kwonlyargs}
             extra = [k for k in call.keywords if k.arg not in known]
             _expand_kwarg(body, t.node.args.kwarg.arg, extra)
+        # argument expressions keep the module they were written in (their
+        # types and global names are looked up there, not in the helper's module)
+        site_mod = getattr(call, "_origin_mod", None) or fi.module.name
+        for v_ in mapping.values():
+            if isinstance(v_, ast.AST):
+                for n_ in ast.walk(v_):
+                    if not hasattr(n_, "_origin_mod"):
+                        n_._origin_mod = site_mod  # type: ignore[attr-defined]
+                        n_._origin_path = getattr(call, "_origin_path", None) or fi.module.relpath  # type: ignore[attr-defined]
         ren = _Rename(mapping)
         body = [_BetaReduce().visit(ren.visit(x)) for x in body]
+        # flags passed as literals decide their branches (`if with_job_nodes:`
+        # with with_job_nodes=False at this call)
+        body = _prune_constant_ifs(body)
 
         def result_stmts(value, ret):
             if kind == "expr":
@@ -505,6 +654,30 @@ class Normalizer:
         else clause) or the generator returns / uses yield as an expression."""
         if not isinstance(st, ast.For) or st.orelse or not isinstance(st.iter, ast.Call):
             return None
+        pre: list[ast.stmt] = []
+        it0 = st.iter
+        if (
+            isinstance(it0.func, ast.Name) and it0.func.id == "enumerate" and it0.args and isinstance(it0.args[0], ast.Call)
+            and isinstance(st.target, ast.Tuple) and len(st.target.elts) == 2 and isinstance(st.target.elts[0], ast.Name)
+            and self._inline_target(fi, it0.args[0], banned, gen=True) is not None
+        ):
+            # for i, x in enumerate(gen(..), start=s): BODY   ->   _n = s; for x in gen(..): i = _n; BODY; _n += 1
+            start = next((k.value for k in it0.keywords if k.arg == "start"), it0.args[1] if len(it0.args) > 1 else ast.Constant(0))
+            _counter[0] += 1
+            cnt = f"_n__e{_counter[0]}"
+            pre = [ast.Assign(targets=[ast.Name(id=cnt, ctx=ast.Store())], value=start)]
+            new_st = ast.For(
+                target=st.target.elts[1], iter=it0.args[0], orelse=[],
+                body=[ast.Assign(targets=[ast.Name(id=st.target.elts[0].id, ctx=ast.Store())], value=ast.Name(id=cnt, ctx=ast.Load()))]
+                + list(st.body)
+                + [ast.AugAssign(target=ast.Name(id=cnt, ctx=ast.Store()), op=ast.Add(), value=ast.Constant(1))],
+            )
+            for x in pre + [new_st]:
+                ast.copy_location(x, st)
+                ast.fix_missing_locations(x)
+            st = new_st
+            if isinstance(getattr(self, "_caller_names", None), set):
+                self._caller_names.add(cnt)
         t = self._inline_target(fi, st.iter, banned, gen=True)
         if t is None:
             return None
@@ -645,7 +818,7 @@ class Normalizer:
                 out.append(x)
             return out
 
-        out = prefix + subst(body)
+        out = pre + prefix + subst(body)
         for x in out:
             ast.fix_missing_locations(x)
         if depth > 1:
@@ -850,9 +1023,43 @@ class Normalizer:
         ast.fix_missing_locations(st)
         return [asg, st]
 
+    def _fuse_generator_locals(self, fi, stmts, banned):
+        """``g = gen(args)`` directly followed by ``for .. in g`` /
+        ``for .. in enumerate(g, ..)`` (g used nowhere else in the block):
+        the generator call moves into the loop header, where it is inlined.
+        Creating a generator runs none of its body, so with pure-path
+        arguments nothing is reordered."""
+        out = list(stmts)
+        i = 0
+        while i + 1 < len(out):
+            a, b = out[i], out[i + 1]
+            if (
+                isinstance(a, ast.Assign) and len(a.targets) == 1 and isinstance(a.targets[0], ast.Name) and isinstance(a.value, ast.Call)
+                and isinstance(b, ast.For) and self._inline_target(fi, a.value, banned, gen=True) is not None
+                and all(_is_path_expr(x) for x in a.value.args) and all(k.arg is not None and _is_path_expr(k.value) for k in a.value.keywords)
+            ):
+                name = a.targets[0].id
+                it = b.iter
+                slot = None
+                if isinstance(it, ast.Name) and it.id == name:
+                    slot = "iter"
+                elif isinstance(it, ast.Call) and isinstance(it.func, ast.Name) and it.func.id == "enumerate" and it.args and isinstance(it.args[0], ast.Name) and it.args[0].id == name:
+                    slot = "enum"
+                uses = sum(1 for st in out[i + 1:] for x in ast.walk(st) if isinstance(x, ast.Name) and x.id == name)
+                if slot and uses == 1:
+                    if slot == "iter":
+                        b.iter = a.value
+                    else:
+                        it.args[0] = a.value
+                    del out[i]
+                    continue
+            i += 1
+        return out
+
     def _inline_block(self, fi, stmts, depth, banned, tail=True):
         out = []
         if depth > 0:
+            stmts = self._fuse_generator_locals(fi, stmts, banned)
             for _round in range(3):
                 expanded = []
                 changed = False
@@ -886,6 +1093,16 @@ class Normalizer:
                 for h in st.handlers:
                     h.body = self._inline_block(fi, h.body, depth, banned, False)
             out.append(st)
+        # a generator that only became visible through inlining (`g = gen(..)`
+        # as the result of an inlined accessor) is fused and inlined now
+        if depth > 0:
+            fused = self._fuse_generator_locals(fi, out, banned)
+            if len(fused) != len(out):
+                out2 = []
+                for st in fused:
+                    rep = self._inline_for_gen(fi, st, depth, banned) if isinstance(st, ast.For) else None
+                    out2 += rep if rep is not None else [st]
+                out = out2
         # a hoisted loop header whose helper turned out to be a plain
         # expression goes back into the header (`_t = chain(...); for x in _t:`)
         res = []
@@ -1153,6 +1370,21 @@ class Normalizer:
                                     val = call.args[fields.index(a.attr)]
                                 if val is not None:
                                     return norm.xexpr(fi, val, depth - 1, _seen | {a.value.id})
+                # a property the pinned tree does not have (or a private one)
+                # with a one-expression getter is a named expression
+                if isinstance(a.ctx, ast.Load) and depth > 0 and isinstance(a.value, ast.Name):
+                    try:
+                        pt = norm.ctx.res.property_target(fi, getattr(a, "_orig", a), fi.cls)
+                    except Exception:
+                        pt = None
+                    if pt is not None and pt.is_property and not any("cached" in d for d in pt.decorators):
+                        from .baseline_api import PUBLIC_CALLABLES
+
+                        key = (pt.cls.name + "." if pt.cls is not None else "") + pt.name
+                        body = [s_ for s_ in body_of(pt.node) if not isinstance(s_, ast.Assert)]
+                        if (key not in PUBLIC_CALLABLES or pt.name.startswith("_")) and len(body) == 1 and isinstance(body[0], ast.Return) and body[0].value is not None and pt.params:
+                            e = _Rename({pt.params[0]: a.value}).visit(copy.deepcopy(body[0].value))
+                            return norm.xexpr(fi, e, depth - 1, _seen)
                 self.generic_visit(a)
                 return a
 
@@ -1205,7 +1437,7 @@ class Normalizer:
         # copies of Name nodes remember the node they were copied from (the
         # reaching-definition look-up needs its place in the function)
         for a, b in zip(ast.walk(dup), ast.walk(node)):
-            if isinstance(a, ast.Name):
+            if isinstance(a, (ast.Name, ast.Attribute)):
                 a._orig = getattr(b, "_orig", b)  # type: ignore[attr-defined]
         return X().visit(dup)
 
